@@ -335,6 +335,7 @@ def build(run):
 def run(run, replay=None):
     from units.C14 import cex as _cex
     run.fallbacks.append(("line table (gap programs compiled for Python 3.9)", lambda: _cex.find_lnotab(run, {})))
+    run.explorations.append(("pyc structure", lambda: _cex.explore_pyc(run)))
     unit = build(run)
     res = unit.run(rlimit=60)
     from units.C14 import cex
